@@ -114,8 +114,7 @@ fn gif_sub(data: &[u8]) -> Vec<u8> {
     v
 }
 
-/// GIF89a with an XMP application extension (packet + magic trailer in proper sub-blocks), a plain text
-/// extension and a local colour table.
+/// GIF89a with an XMP application extension (packet + magic trailer in proper sub-blocks) and a local colour table.
 pub fn gif_xmp() -> Vec<u8> {
     let mut v = b"GIF89a".to_vec();
     v.extend_from_slice(&[1, 0, 1, 0, 0x80, 0, 0, 0, 0, 0, 255, 255, 255]);
@@ -125,9 +124,20 @@ pub fn gif_xmp() -> Vec<u8> {
     v.extend_from_slice(&[0x21, 0xFF, 0x0B]);
     v.extend_from_slice(b"XMP DataXMP");
     v.extend(gif_sub(&x));
-    v.extend_from_slice(&[0x21, 0x01, 12, 0, 0, 0, 0, 1, 0, 1, 0, 8, 8, 0, 1]);
-    v.extend(gif_sub(b"hi"));
     v.extend_from_slice(&[0x2C, 0, 0, 0, 0, 1, 0, 1, 0, 0x80, 1, 2, 3, 4, 5, 6, 0x02, 0x02, 0x4C, 0x01, 0x00, 0x3B]);
+    v
+}
+
+/// GIF89a with a plain text extension (GIF89a spec section 25: block size 12, then 12 bytes grid/cell/colour
+/// fields, then data sub-blocks). `fg`,`bg` are the colour index bytes (the last two of the 12).
+/// NOT part of `seeds()`: the SDK's parser skips 11 instead of 13 bytes here and only accepts the file for
+/// lucky colour values.
+pub fn gif_plaintext(fg: u8, bg: u8) -> Vec<u8> {
+    let mut v = b"GIF89a".to_vec();
+    v.extend_from_slice(&[1, 0, 1, 0, 0x80, 0, 0, 0, 0, 0, 255, 255, 255]);
+    v.extend_from_slice(&[0x21, 0x01, 12, 0, 0, 0, 0, 1, 0, 1, 0, 8, 8, fg, bg]);
+    v.extend(gif_sub(b"hi"));
+    v.extend_from_slice(&[0x2C, 0, 0, 0, 0, 1, 0, 1, 0, 0, 0x02, 0x02, 0x4C, 0x01, 0x00, 0x3B]);
     v
 }
 
@@ -396,9 +406,11 @@ pub fn tiff_variants() -> Vec<(String, Vec<u8>)> {
         out.push((format!("tiff-{tag}-xmp"), tiff_build(le, big, &[tiff_page(&[5, 5, 5, 5, 5, 5], ot, vec![(700, 1, B(assets::xmp_packet("").into_bytes()))])])));
         let sub = tiff_page(&[0x51, 0x52, 0x53, 0x54, 0x55, 0x56, 0x57], ot, vec![]);
         let exif = vec![(36864u16, 7u16, B(b"0230".to_vec())), (37510, 7, B(b"ASCII\0\0\0a user comment".to_vec()))];
+        // sub-IFD pointers use type IFD (13, 4 bytes) also in BigTIFF: the SDK reads them as 32-bit values only
+        // (see `valid_but_unsupported` for the IFD8 form)
         out.push((
             format!("tiff-{tag}-subifd"),
-            tiff_build(le, big, &[tiff_page(&[0x41, 0x42, 0x43, 0x44, 0x45, 0x46], ot, vec![(330, if big { 18 } else { 13 }, Sub(vec![sub])), (34665, if big { 18 } else { 13 }, Sub(vec![exif]))])]),
+            tiff_build(le, big, &[tiff_page(&[0x41, 0x42, 0x43, 0x44, 0x45, 0x46], ot, vec![(330, 13, Sub(vec![sub])), (34665, if big { 18 } else { 13 }, Sub(vec![exif]))])]),
         ));
         let mut two = tiff_page(&[0], ot, vec![]);
         for e in two.iter_mut() {
@@ -708,6 +720,7 @@ pub fn seeds() -> Vec<Asset> {
     v.push(sidecar());
     v.push(a("gif87a", "image/gif", "gif", gif87a()));
     v.push(a("gif-xmp", "image/gif", "gif", gif_xmp()));
+    v.push(a("gif-trailing", "image/gif", "gif", with_trailing(assets::gif(), b"TRAILING-DATA")));
     v.push(a("jpeg-rich", "image/jpeg", "jpg", jpeg_rich()));
     v.push(a("jpeg-foreign-jumbf", "image/jpeg", "jpg", jpeg_foreign_jumbf()));
     v.push(a("jpeg-trailing", "image/jpeg", "jpg", with_trailing(assets::jpeg(), b"TRAILING-DATA")));
@@ -729,10 +742,50 @@ pub fn seeds() -> Vec<Asset> {
     v
 }
 
+/// Files that are valid per their format specification but exercise forms the handlers may not support.
+/// They are NOT seeds (no precondition asserted on them); C07 reports a rejection as a violation of
+/// "every valid asset".
+pub fn valid_but_unsupported() -> Vec<Asset> {
+    use TVal::*;
+    let sub = tiff_page(&[0x51, 0x52, 0x53, 0x54, 0x55, 0x56, 0x57], 16, vec![]);
+    vec![
+        a("gif-plaintext-fg0-bg1", "image/gif", "gif", gif_plaintext(0, 1)),
+        a("gif-plaintext-fg1-bg0", "image/gif", "gif", gif_plaintext(1, 0)),
+        a("tiff-MM-big-subifd8", "image/tiff", "tiff", tiff_build(false, true, &[tiff_page(&[0x41, 0x42, 0x43, 0x44, 0x45, 0x46], 16, vec![(330, 18, Sub(vec![sub]))])])),
+    ]
+}
+
 pub fn seed(name: &str) -> Asset {
-    seeds().into_iter().find(|x| x.name == name).unwrap_or_else(|| crate::ev::machinery(format!("no group-A seed named {name}")))
+    seeds().into_iter().chain(valid_but_unsupported()).find(|x| x.name == name).unwrap_or_else(|| crate::ev::machinery(format!("no group-A seed named {name}")))
 }
 
 pub fn kind(a: &Asset) -> crate::walk::Kind {
     crate::walk::kind_of(a.mime).unwrap_or_else(|| crate::ev::machinery(format!("walker has no container family for {}", a.mime)))
+}
+
+// ------------------------------------------------------------------------------------------------
+// violation reporting with a per-key cap (sweeps can hit the same defect thousands of times)
+// ------------------------------------------------------------------------------------------------
+
+static SEEN_KEYS: std::sync::Mutex<Option<std::collections::HashMap<String, u64>>> = std::sync::Mutex::new(None);
+pub const MAX_CASES_PER_KEY: u64 = 3;
+
+/// `run.violation`, but only the first MAX_CASES_PER_KEY cases of a key are recorded as violations; all
+/// cases are counted in the outcome class "violating cases: <key>".
+pub fn report(run: &crate::Run, key: impl Into<String>, what: impl Into<String>, case: serde_json::Value) {
+    let (key, what): (String, String) = (key.into(), what.into());
+    let n = {
+        let mut g = SEEN_KEYS.lock().unwrap_or_else(|e| e.into_inner());
+        let m = g.get_or_insert_with(Default::default);
+        let c = m.entry(key.clone()).or_insert(0);
+        *c += 1;
+        *c
+    };
+    run.outcome(format!("violating cases: {key}"));
+    if std::env::var("VERIF_A_DUMP").is_ok() {
+        eprintln!("DUMP\t{key}\t{what}");
+    }
+    if n <= MAX_CASES_PER_KEY {
+        run.violation(key, what, case);
+    }
 }
